@@ -18,6 +18,7 @@ from concurrent.futures import ThreadPoolExecutor
 REPO = os.environ.get("VERIF_REPO", "/repo")
 VERIF = os.path.dirname(os.path.dirname(os.path.abspath(__file__)))
 IRFACTS = os.path.join(VERIF, "bin", "irfacts")
+IRSPEC = os.path.join(VERIF, "bin", "irspec")
 GUARD = "RWEATHER_SKINNY_C_VERIF"
 SWITCHES = ["SKINNY_64BIT", "SKINNY_UNALIGNED", "SKINNY_LITTLE_ENDIAN",
             "SKINNY_VEC128_MATH", "SKINNY_VEC256_MATH"]
@@ -148,8 +149,9 @@ class Workspace:
 
     def __init__(self, repo=REPO):
         self.repo = repo
-        if not os.path.exists(IRFACTS):
-            raise AnalysisBroken("bin/irfacts missing: run MANIFEST.setup_cmd (make -C /verif)")
+        if not os.path.exists(IRFACTS) or not os.path.exists(IRSPEC):
+            raise AnalysisBroken("bin/irfacts or bin/irspec missing: run MANIFEST.setup_cmd (make -C /verif)")
+        self.spec_log = []
         self.units = compdb(repo)
         if not self.units:
             raise AnalysisBroken("no compilation units found in src/Makefile")
@@ -178,11 +180,18 @@ class Workspace:
             p = subprocess.run(cmd, capture_output=True, text=True)
             if p.returncode != 0:
                 return (u["unit"], None, p.stderr)
-            p = subprocess.run([OPT, "-passes=mem2reg", "-S", base + ".raw.ll", "-o", ll],
+            # helper specialisation (tools/irspec.cc): pointer-returning accessors, drivers with indirect calls and
+            # helpers behind trivial wrappers are inlined; a tree without such helpers passes through unchanged
+            p = subprocess.run([IRSPEC, base + ".raw.ll", base + ".spec.ll"], capture_output=True, text=True)
+            if p.returncode != 0:
+                return (u["unit"], None, "irspec: " + p.stderr)
+            self.spec_log.extend("%s: %s" % (u["unit"], l) for l in p.stderr.splitlines() if l.startswith("inline "))
+            p = subprocess.run([OPT, "-passes=mem2reg", "-S", base + ".spec.ll", "-o", ll],
                                capture_output=True, text=True)
             if p.returncode != 0:
                 return (u["unit"], None, p.stderr)
             os.unlink(base + ".raw.ll")
+            os.unlink(base + ".spec.ll")
         else:
             cmd = [CLANG] + flags + [u["optlevel"] if shape == "ship" else shape, "-g",
                                      "-fno-discard-value-names", "-S", "-emit-llvm",
